@@ -584,6 +584,17 @@ func (x *exec) call(op byte) (r result) {
 				r.beforeStop = true // the item was handed over before the stop completed: allowed
 			}
 		}
+	case 'N':
+		// a consumer looks ahead: it fetches the page after the current one through the paginator's exported FetchNextPage
+		// (static-page paginators). Looking is not moving: the iteration goes on exactly as if nobody had looked
+		if pf, ok := x.p.(interface {
+			GetCurrentPage() (pagination.IStaticPage, error)
+			FetchNextPage(context.Context, pagination.IStaticPage) (pagination.IStaticPage, error)
+		}); ok {
+			if cur, err := pf.GetCurrentPage(); err == nil && cur != nil && cur.HasNext() {
+				_, r.err = pf.FetchNextPage(context.Background(), cur)
+			}
+		}
 	case 'S':
 		x.p.Stop()()
 	case 'C':
@@ -619,6 +630,11 @@ func (x *exec) step(op byte) bool {
 			x.trace = append(x.trace, op, '!', ' ')
 			x.fail(fmt.Sprintf("panic:kind=%s:op=%c", x.kind, op), fmt.Sprint(r.pan))
 		}
+		return false
+	}
+	if op == 'N' { // the look-ahead's own fetch is not a move of the paginator: the reference cursor stays where it is
+		x.src.events = x.src.events[:0]
+		x.trace = append(x.trace, 'N', ' ')
 		return false
 	}
 	// --- what the fetchers saw during the call
@@ -1060,6 +1076,9 @@ func plan(thorough bool) (bs []batch, bd bounds) {
 				}
 				for _, f := range faultsFor(c, true) {
 					add(batch{kind: kind, c: c, f: f, honour: true})
+				}
+				if kind == "static" { // look-aheads between the calls of the iteration
+					add(batch{kind: kind, c: c, f: fault{Kind: "none"}, honour: true, alpha: "HGN", maxLen: bd.LenPlain})
 				}
 			}
 			for _, sz := range long {
